@@ -4,7 +4,7 @@ from __future__ import annotations
 
 import ast
 
-from .index import FuncInfo, dotted_of, norm, own_nodes, short
+from .index import ClassInfo, FuncInfo, Repo, dotted_of, norm, own_nodes, short
 
 _IGNORED_CALLS = {"reversed", "iter", "list", "tuple", "isinstance", "len", "enumerate", "zip", "as_graphs", "as_graph",
                   # building the collection of per-graph results in the GRAPHS branch
@@ -1207,3 +1207,72 @@ def iterable_consumed_twice(f: FuncInfo):
                 continue
             break
     return out
+
+
+# ----------------------------------------------------------------------------------------------------------------- S14
+_MEMO_DECORATORS = {"functools.cache", "functools.lru_cache", "cache", "lru_cache", "functools.cached_property", "cached_property"}
+_IMMUTABLE_ANNOTATIONS = {"str", "int", "bool", "float", "bytes", "complex", "None", "type"}
+
+
+def memoised_over_mutable_arguments(repo: Repo, modules: set[str] | None = None):
+    """Shared rule S14: [(function, decorator node, parameter)] - a function whose results are memoised (functools.cache /
+    lru_cache / cached_property) takes an argument that is not an immutable scalar (str, int, bool, float, bytes, an enum member):
+    the cache is keyed by the identity of a live, mutable object (a graph, a node, a value) and is never invalidated, so the
+    answer computed at the first call is handed out again after the object was edited - state survives between calls.  Also
+    returns the number of memoised functions examined."""
+    out, n = [], 0
+    for m in repo.pkg_modules():
+        if modules is not None and m.name not in modules:
+            continue
+        for f in m.all_funcs:
+            if isinstance(f.node, ast.Lambda):
+                continue
+            for d in f.node.decorator_list:
+                name = dotted_of(d.func if isinstance(d, ast.Call) else d) or ""
+                if name not in _MEMO_DECORATORS:
+                    continue
+                n += 1
+                a = f.node.args
+                params = a.posonlyargs + a.args + a.kwonlyargs
+                if a.vararg is not None:
+                    params = params + [a.vararg]
+                if a.kwarg is not None:
+                    params = params + [a.kwarg]
+                for x in params:
+                    ann = norm(x.annotation) if x.annotation is not None else ""
+                    parts = {p.strip() for p in ann.replace("Optional[", "").replace("]", "").split("|")} if ann else set()
+                    immutable = bool(parts) and all(p in _IMMUTABLE_ANNOTATIONS or _is_enum_annotation(repo, m, p) for p in parts)
+                    if not immutable:
+                        out.append((f, d, x.arg))
+                        break
+    return out, n
+
+
+def _is_enum_annotation(repo: Repo, m, text: str) -> bool:
+    try:
+        obj = repo.resolve_global(repo.expand_dotted(m, text))
+    except Exception:
+        return False
+    if not isinstance(obj, ClassInfo):
+        return False
+    for k in repo.mro(obj):
+        nm = getattr(k, "name", "") or str(k)
+        if nm in ("Enum", "IntEnum", "Flag", "IntFlag") or str(nm).endswith((".Enum", ".IntEnum")):
+            return True
+    return False
+
+
+def rule_s14(ctx, rid: str, in_scope, consequence: str, expect_memoised: int = 0):
+    """Report S14 under rule `rid` for the modules `in_scope(name)` selects."""
+    mods = {m.name for m in ctx.repo.pkg_modules() if in_scope(m.name)}
+    ctx.require(bool(mods), f"{rid}: no module in scope of the memoisation rule")
+    hits, n = memoised_over_mutable_arguments(ctx.repo, mods)
+    for f, d, param in hits:
+        ctx.check(rid, f"{f.local}: memoised over `{param}`", False, f, d,
+                  f"`@{norm(d)[:50]}` memoises {f.local} by the identity of `{param}`, a live object that can be edited afterwards: the answer of the first "
+                  f"call is handed out again after the edit - {consequence}",
+                  how="decorators functools.cache / lru_cache / cached_property on functions with a parameter that is not an immutable scalar or enum",
+                  construct=f"memoised over {param}")
+    ctx.ob(rid, f"{len(mods)} module(s), {n} memoised function(s): none is keyed by a mutable argument", not hits, nontrivial=False,
+           how="shared rule S14") if not hits else None
+    ctx.require(n >= expect_memoised, f"{rid}: expected at least {expect_memoised} memoised function(s) in scope, found {n}")
